@@ -62,6 +62,10 @@ def observe(pd, req, fresh_model=True):
     elif q == "kG0":
         p.Nxx, p.Nyy, p.Nxy = (float(fr(x)) for x in req["N"])
         M = p.calc_kG0(silent=True, **kw)
+    elif q in ("uvw", "strain", "stress"):
+        return observe_field(p, pd, req)
+    elif q in ("fext", "static"):
+        return observe_load(p, pd, req, kw)
     else:
         p.calc_k0(silent=True)          # the documented order: the laminate is derived by calc_k0
         if q == "kM":
@@ -86,9 +90,74 @@ def observe(pd, req, fresh_model=True):
     return [[dyadic(v) for v in row] for row in A], ok
 
 
+FIELD_KEYS = {"uvw": ["u", "v", "w", "phix", "phiy"],
+              "strain": ["exx", "eyy", "gxy", "kxx", "kyy", "kxy"],
+              "stress": ["Nxx", "Nyy", "Nxy", "Mxx", "Myy", "Mxy"]}
+
+
+def field_call(p, q, c, xs, ys, NL):
+    if q == "uvw":
+        return [np.asarray(a, dtype=float).ravel() for a in p.uvw(c, xs=xs, ys=ys)]
+    if q == "strain":
+        res = p.strain(c, xs=xs, ys=ys, NLterms=NL)
+    else:
+        res = p.stress(c, xs=xs, ys=ys, NLterms=NL)
+    return [np.asarray(res[k], dtype=float).ravel() for k in FIELD_KEYS[q]]
+
+
+def observe_field(p, pd, req):
+    """fields at the requested points; also re-evaluated with other thread counts, another point order
+    and as a sub-list: all must be bit-identical (each point is computed independently)"""
+    q = req["q"]
+    p.calc_k0(silent=True)            # documented order (derives model, laminate, F, r, alpharad)
+    c = np.array([float(fr(v)) for v in req["c"]])
+    c0 = c.copy()
+    xs = np.array([float(fr(pt[0])) for pt in req["pts"]])
+    ys = np.array([float(fr(pt[1])) for pt in req["pts"]])
+    NL = bool(req.get("NL", False))
+    p.out_num_cores = req.get("cores", 3)
+    base = field_call(p, q, c, xs, ys, NL)
+    ok = True
+    npts = len(xs)
+    for cores in (1, 2, 5, 16):
+        p.out_num_cores = cores
+        other = field_call(p, q, c, xs, ys, NL)
+        ok = ok and all(np.array_equal(a, b) for a, b in zip(base, other))
+    perm = list(range(npts))[::-1]
+    p.out_num_cores = 4
+    other = field_call(p, q, c, xs[perm], ys[perm], NL)
+    ok = ok and all(np.array_equal(a[perm], b) for a, b in zip(base, other))
+    if npts > 2:
+        other = field_call(p, q, c, xs[:npts - 2], ys[:npts - 2], NL)
+        ok = ok and all(np.array_equal(a[:npts - 2], b) for a, b in zip(base, other))
+    ok = ok and np.array_equal(c, c0)          # the caller's amplitude vector is not modified
+    obs = [[dyadic(comp[k]) for comp in base] for k in range(npts)]
+    return obs, bool(ok)
+
+
+def observe_load(p, pd, req, kw):
+    q = req["q"]
+    flt = lambda fs: [[float(fr(v)) for v in f] for f in fs]
+    p.forces = flt(req["forces"])
+    p.forces_inc = flt(req["forcesInc"])
+    inc = float(fr(req["inc"]))
+    if q == "fext":
+        k2 = {}
+        if kw:
+            k2 = dict(size=kw["size"], col0=kw["col0"])
+        f = p.calc_fext(inc=inc, silent=True, **k2)
+        return [[dyadic(v)] for v in np.asarray(f, dtype=float).ravel()], True
+    # linear static analysis (all forces at full load: the linear analysis uses inc = 1)
+    cs = p.static(silent=True)
+    incs = p.increments
+    c = np.asarray(cs[0], dtype=float).ravel()
+    ok = (len(cs) == 1 and list(incs) == [1.0])
+    return [[dyadic(v)] for v in c], bool(ok)
+
+
 def jreq(r):
     out = dict(q=r["q"], size=r.get("size", 0), row0=r.get("row0", 0), col0=r.get("col0", 0))
-    for k in ("N", "flow", "beta", "gamma", "aeromu"):
+    for k in ("N", "flow", "beta", "gamma", "aeromu", "c", "pts", "NL", "forces", "forcesInc", "inc", "cores"):
         if k in r:
             out[k] = r[k]
     return out
@@ -161,6 +230,30 @@ def random_req(rng, pd, q):
         r["gamma"] = rat(Fraction(rng.randint(1, 16), 8) if pd["model"] == "cpanel" and r["flow"] == "x" else 0)
     if q == "cA":
         r["aeromu"] = rat(Fraction(rng.randint(1, 40), 8))
+    a, b = fr(pd["a"]), fr(pd["b"])
+    if q in ("uvw", "strain", "stress"):
+        amp = rng.choice([1, 1, 8, 64])
+        r["c"] = [rat(Fraction(rng.randint(-16, 16), 16 * amp)) for _ in range(size)]
+        npts = rng.choice([1, 2, 3, 5, 7, 11, 17])
+        pts = []
+        for _ in range(npts):
+            fx = Fraction(rng.choice([0, 8] + list(range(0, 9))), 8)
+            fy = Fraction(rng.choice([0, 8] + list(range(0, 9))), 8)
+            pts.append([rat(fx * a), rat(fy * b)])
+        r["pts"] = pts
+        r["cores"] = rng.choice([1, 2, 3, 4, 6, 7, 16])
+        if q != "uvw":
+            r["NL"] = rng.random() < 0.5
+    if q in ("fext", "static"):
+        def forces(n):
+            return [[rat(Fraction(rng.randint(0, 8), 8) * a), rat(Fraction(rng.randint(0, 8), 8) * b)] +
+                    [rat(Fraction(rng.randint(-24, 24), 8)) for _ in range(3)] for _ in range(n)]
+        r["forces"] = forces(rng.randint(0, 3))
+        r["forcesInc"] = forces(rng.randint(0 if r["forces"] else 1, 3))
+        r["inc"] = rat(Fraction(rng.randint(1, 16), 8)) if q == "fext" else rat(1)
+        if q == "fext" and rng.random() < 0.3:
+            off = rng.randint(1, 9)
+            r.update(size=size + off + rng.randint(0, 5), row0=off, col0=off)
     return r
 
 
@@ -183,6 +276,7 @@ INVS = {
     "kM": ["SymmetricOut", "ScaleDominatesOut", "TilesAddUp", "ProbesNonNegative", "MassPosDef", "RigidBody"],
     "kA": ["ScaleDominatesOut", "OnlyW", "AeroStructure"],
     "cA": ["SymmetricOut", "OnlyW"],
+    "uvw": [], "strain": [], "stress": ["StrainEnergyNonNegative"], "fext": ["VirtualWork"], "static": [],
 }
 
 
@@ -201,6 +295,8 @@ def run_prop(prop, qs, tier, seed, build, nrand_quick=40, nrand_thorough=600, wh
         return rep.finish()
     pairs = [(v[1], v[2]) for v in printed_values(mc.out, "REQ")]
     pairs = [(pd, r) for pd, r in pairs if r["q"] in qs]
+    if "static" in qs:   # the lattice load cases are also solved
+        pairs += [(pd, dict(r, q="static", inc=rat(1))) for pd, r in pairs if r["q"] == "fext" and fr(r["inc"]) == 1]
     if not pairs:
         rep.machinery("no lattice requests for " + str(qs))
         return rep.finish()
@@ -211,6 +307,8 @@ def run_prop(prop, qs, tier, seed, build, nrand_quick=40, nrand_thorough=600, wh
     models = ["plate", "plate", "cpanel", "cpanel", "plate_w", "kpanel"]
     if set(qs) & {"kA", "cA"}:
         models = ["plate", "cpanel", "plate_w"]
+    if set(qs) & {"uvw", "strain", "stress", "fext", "static"}:
+        models = ["plate", "cpanel"]
     nrand = nrand_quick if tier == "quick" else nrand_thorough
     rnd = []
     for _ in range(nrand):
@@ -219,8 +317,8 @@ def run_prop(prop, qs, tier, seed, build, nrand_quick=40, nrand_thorough=600, wh
         r = random_req(rng, pd, q)
         if q == "kA":
             restrain_flow_edges(pd, r["flow"])
-        if q in ("kA", "cA"):
-            # C19 quantifies over whole panels: the aerodynamic kernels have no sub-interval variant
+        if q in ("kA", "cA", "uvw", "strain", "stress", "fext", "static"):
+            # these quantify over whole panels (no sub-interval variant of the kernels)
             pd["y1"], pd["y2"] = rat(0), pd["b"]
         rnd.append((pd, r))
     for k, (pd, r) in enumerate(pairs + rnd):
@@ -235,7 +333,7 @@ def run_prop(prop, qs, tier, seed, build, nrand_quick=40, nrand_thorough=600, wh
         eid += 2
         groups.append(g)
         rep.nontrivial(key_of(pd, r))
-    tcfg = ("CONSTANTS\nNFun = 8\nDeviations = {}\nTol = %d\nOpenKF = {%s}\n"
+    tcfg = ("CONSTANTS\nNFun = 8\nDeviations = {}\nTol = %d\nTolSolve = 30\nOpenKF = {%s}\n"
             % (TOL, ", ".join('"%s"' % k for k in kfs)))
     verdicts, results, problems = validate_trace(prop.lower() + "-tr", "Trace_PanelModel", tcfg, groups,
                                                  timeout=6000, judged=lambda e: e["ev"] == "eval")
@@ -248,7 +346,9 @@ def run_prop(prop, qs, tier, seed, build, nrand_quick=40, nrand_thorough=600, wh
         if not v:
             continue
         if v[0].startswith("kf:"):
-            rep.known(v[0][3:], "model=%s m=%d n=%d req=%s off=%s" % (pd["model"], pd["m"], pd["n"], r["q"], fr(pd["off"])))
+            for name in v[0][3:].split("+"):
+                rep.known(name, "model=%s m=%d n=%d req=%s%s off=%s" % (pd["model"], pd["m"], pd["n"], r["q"],
+                                                                       "(NL=%s)" % r["NL"] if "NL" in r else "", fr(pd["off"])))
         elif v[0] != "ok":
             rep.violation("%s of a %s panel (m=%d,n=%d) differs from %s at entries %s"
                           % (r["q"], pd["model"], pd["m"], pd["n"], what, str(v[1])[:300]),
